@@ -621,6 +621,42 @@ pub fn run(tier: Tier) -> i32 {
             rep.violation(k, w, j);
         }
     }
+    // around the largest header format 1.0 can describe (a 16-bit length): k axes of length one (and
+    // with a first axis of length 3) for every k from 21 800 to 21 840 - either a valid file or an error
+    {
+        let near: Vec<Vec<usize>> = (21_800..=21_840usize).flat_map(|k| { let mut b = vec![1usize; k]; b[0] = 3; [vec![1usize; k], b] }).collect();
+        let res = par_each(&near, |shape| {
+            let values = values_for(shape);
+            let case = J::obj([("kind", J::s("c15-writer")), ("shape", J::usizes(shape))]);
+            let r = catch(|| {
+                let arr = Array::new(values.clone(), shape.to_vec()).expect("shape fits");
+                let mut out = Vec::new();
+                arr.write_npy(&mut out).map(|_| out).map_err(|e| e.to_string())
+            });
+            match r {
+                Ok(Ok(bytes)) => match check_written(&bytes, shape, &values) {
+                    Ok(()) => (true, None),
+                    Err(e) => (true, Some((format!("C15|lib|writer-nonconforming-near-header-limit|{}", norm_msg(&e)), format!("write_npy of {} axes (first axis {}) reports success but the file is not a valid NPY 1.0 file: {e}; {} bytes, length field {:?}", shape.len(), shape[0], bytes.len(), bytes.get(8..10)), case))),
+                },
+                Ok(Err(_)) => (false, None),
+                Err(p) => (false, Some((format!("C15|lib|writer-panic|{}", norm_msg(&p)), format!("write_npy of {} axes panicked: {p}", shape.len()), case))),
+            }
+        });
+        let written = res.iter().filter(|r| r.0).count();
+        for (_, v) in res {
+            if let Some((k, w, j)) = v {
+                rep.violation(k, w, j);
+            }
+        }
+        rep.part(Part {
+            name: "lib: writer around the 16-bit header limit".into(),
+            evaluations: near.len() as u64,
+            nontrivial: near.len() as u64,
+            note: format!("{} shapes of 21 800 .. 21 840 unit axes (and with a first axis of length 3): {written} are written - each a valid file whose length field describes its header -, the others are refused with an error", near.len()),
+            exhaustive: true,
+            extra: vec![("written".into(), J::u(written))],
+        });
+    }
     rep.part(Part {
         name: "lib: writer conformance".into(),
         evaluations: fam.len() as u64,
